@@ -244,6 +244,43 @@ def rand_trains(rnd, T, B, I, O, p=0.3):
     return pre, post
 
 
+def trace_mode_cases():
+    """every trace monitor a trainer registers follows the configured trace mode - as wired (reducer class) and as
+    observed: driven with a spike at every step, a nearest-mode trace never exceeds its amplitude, a cumulative one does"""
+    fails, n = [], 0
+    specs = [
+        ("STDP", lambda m: STDP(0.5, -0.3, 10.0, 8.0, trace_mode=m), {"trace_pre": 0.5, "trace_post": 0.3}),
+        ("MSTDP", lambda m: MSTDP(0.5, -0.3, 10.0, 8.0, trace_mode=m), {"trace_pre": 0.5, "trace_post": 0.3}),
+        ("MSTDPET", lambda m: MSTDPET(0.5, -0.3, 10.0, 8.0, 20.0, trace_mode=m), {"trace_pre": 0.5, "trace_post": 0.3}),
+        ("TripletSTDP", lambda m: TripletSTDP(0.5, 0.25, -0.3, 0.15, 10.0, 30.0, 8.0, 24.0, trace_mode=m), None),
+    ]
+    for cls, mk, amps in specs:
+        for mode in ("nearest", "cumulative"):
+            n += 1
+            conn, neuron, layer = build(3, 2, 1, 1.0, torch.zeros(2, 3, dtype=torch.long), 0)
+            tr = mk(mode)
+            tr.register_cell("cell", layer.cell)
+            want = "NearestTraceReducer" if mode == "nearest" else "CumulativeTraceReducer"
+            inp = dict(trainer=cls, trace_mode=mode)
+            for (cell, name), mon in tr.named_monitors:
+                if name.startswith("trace_") and type(mon.reducer).__name__ != want:
+                    fails.append({"what": f"C08/{cls}/trace_monitor_ignores_trace_mode", "input": dict(inp, monitor=name), "expected": want, "actual": type(mon.reducer).__name__})
+            with torch.no_grad():
+                for _ in range(4):
+                    layer(torch.ones(1, 3), neuron_kwargs={"override": torch.ones(1, 2, dtype=torch.bool)})
+            for (cell, name), mon in tr.named_monitors:
+                if amps and name in amps:
+                    peak = float(mon.peek().abs().max())
+                    ok = peak <= amps[name] + 1e-6 if mode == "nearest" else peak > amps[name] + 1e-6
+                    if not ok:
+                        fails.append({"what": f"C08/{cls}/trace_behaviour_ignores_trace_mode", "input": dict(inp, monitor=name), "expected": ("<= " if mode == "nearest" else "> ") + str(amps[name]), "actual": peak})
+    uniq = []
+    for f in fails:
+        if not any(u["what"] == f["what"] for u in uniq):
+            uniq.append(f)
+    return uniq, n
+
+
 def sweep_c08(tier, seed):
     failures, cases = [], 0
     rnd = random.Random(seed)
@@ -285,6 +322,9 @@ def sweep_c08(tier, seed):
     fd, nd = trainer_defaults(only=("STDP", "MSTDP", "MSTDPET"), prefix="C08")
     failures.extend(fd)
     cases += nd
+    fm, nm = trace_mode_cases()
+    failures.extend(fm)
+    cases += nm
     return failures, cases
 
 
